@@ -1938,7 +1938,7 @@ fn limit_shapes() -> Vec<(String, Sx)> {
         add(format!("brackets-through-call:{n}"), nest(n, a.clone(), &|e| item(b.clone(), Sx::Call("f".into(), vec![("k".into(), e)]))));
     }
     // literals at the recursion limit: every element / value / comprehension part is one level down
-    for n in 35..=41 {
+    for n in 37..=41 {
         let deep = nest(n, a.clone(), &|e| paren_sx(e));
         add(format!("array-item-parens:{n}"), Sx::Arr(vec![(false, b.clone()), (false, deep.clone())]));
         add(format!("array-spread-parens:{n}"), Sx::Trail(bx(Sx::Arr(vec![(true, deep.clone())]))));
@@ -2918,6 +2918,135 @@ fn emit_key_cases(sink: &mut Sink, meta: &mut Meta, tera: &Tera, rng: &mut Rng, 
 }
 
 
+// ------------------------------------------------------------------ (C) list comprehensions and spreads
+
+/// comprehension = filter + map over the target in order, loop variable scoped to the
+/// comprehension, condition before element, element not evaluated for skipped items, first error
+/// wins (Spec/ExprSem.v EComp); spreads of comprehension results
+fn emit_comp_cases(sink: &mut Sink, meta: &mut Meta, tera: &Tera, rng: &mut Rng, thorough: bool) -> usize {
+    let before = sink.count;
+    let targets: Vec<(&str, Option<Value>)> = vec![
+        ("[]", Some(varr(vec![]))),
+        ("[1,2,3]", Some(varr(vec![vi(1), vi(2), vi(3)]))),
+        ("[0,1,2,3]", Some(varr(vec![vi(0), vi(1), vi(2), vi(3)]))),
+        ("['a','','b']", Some(varr(vec![Value::from("a"), Value::from(""), Value::from("b")]))),
+        ("[none,true,false]", Some(varr(vec![Value::none(), Value::from(true), Value::from(false)]))),
+        ("[[1],[2,3],[]]", Some(varr(vec![varr(vec![vi(1)]), varr(vec![vi(2), vi(3)]), varr(vec![])]))),
+        ("[{f:1},{f:0},{}]", Some(varr(vec![vmap(vec![("f", vi(1))]), vmap(vec![("f", vi(0))]), vmap(vec![])]))),
+        ("[1,'a',none]", Some(varr(vec![vi(1), Value::from("a"), Value::none()]))),
+        ("int", Some(vi(3))),
+        ("str", Some(Value::from("ab"))),
+        ("none", Some(Value::none())),
+        ("map", Some(vmap(vec![("a", vi(1))]))),
+        ("emptymap", Some(vmap(vec![]))),
+        ("unbound", None),
+    ];
+    let x = || var("x");
+    let elems: Vec<(&str, Sx)> = vec![
+        ("x", x()),
+        ("x + 1", bin(Bop::Plus, x(), cint(1))),
+        ("x * x", bin(Bop::Mul, x(), x())),
+        ("x ~ '!'", bin(Bop::Concat, x(), sstr("!"))),
+        ("[x, y]", arr(vec![(false, x()), (false, var("y"))])),
+        ("[...x]", arr(vec![(true, x())])),
+        ("{'v': x}", Sx::Map(vec![(Some(MKey::Str("v".into())), x())])),
+        ("x if x else 'z'", tern(x(), x(), sstr("z"))),
+        ("y", var("y")),
+        ("nope", var("nope")),
+        ("x.f", attr(x(), "f", false)),
+        ("x?.f or 0", bin(Bop::Or, attr(x(), "f", true), cint(0))),
+        ("throw()", throw_call()),
+        ("1", cint(1)),
+        ("not x", un(Unop::Not, x())),
+        ("x is defined", test(x(), "defined", false)),
+    ];
+    let conds: Vec<(&str, Option<Sx>)> = vec![
+        ("-", None),
+        ("x", Some(x())),
+        ("not x", Some(un(Unop::Not, x()))),
+        ("x > 1", Some(bin(Bop::Gt, x(), cint(1)))),
+        ("x is odd", Some(test(x(), "odd", false))),
+        ("x is not defined", Some(test(x(), "defined", true))),
+        ("nope", Some(var("nope"))),
+        ("true", Some(Sx::Const(Const::Bool(true)))),
+        ("false", Some(Sx::Const(Const::Bool(false)))),
+        ("y", Some(var("y"))),
+        ("x.f", Some(attr(x(), "f", false))),
+        ("throw()", Some(throw_call())),
+        ("x in [1, 'a']", Some(bin(Bop::In, x(), arr(vec![(false, cint(1)), (false, sstr("a"))])))),
+    ];
+    let env_of = |t: &Option<Value>| {
+        // `x` is bound outside too (shadowed inside the comprehension), `y` is an outer variable
+        let mut env = vec![("x".to_string(), vi(100)), ("y".to_string(), vi(7))];
+        if let Some(v) = t {
+            env.push(("xs".to_string(), v.clone()));
+        }
+        env
+    };
+    let comp = |e: &Sx, c: &Option<Sx>| Sx::Comp(bx(e.clone()), None, "x".into(), bx(var("xs")), c.clone().map(bx));
+    let mut n = 0usize;
+    for (ti, (tn, t)) in targets.iter().enumerate() {
+        let env = env_of(t);
+        for (ei, (en, e)) in elems.iter().enumerate() {
+            for (ci, (cn, c)) in conds.iter().enumerate() {
+                // quick: a slice through each face of the product; thorough: all of it
+                let quick = (ci == 0 && ei % 2 == ti % 2)
+                    || (ei == 0 && matches!(ti, 0 | 2 | 4 | 7 | 8 | 13))
+                    || (ti == 2 && (ei + ci) % 3 == 0);
+                if !(thorough || quick) {
+                    continue;
+                }
+                let tag = format!("C:[{en} for x in xs if {cn}] @ {tn}");
+                n += 1;
+                emit_eval(sink, meta, tera, &comp(e, c), &env, n % 7 == 0, &tag, rng);
+            }
+        }
+    }
+    // scoping, laziness, nesting, spreads of results, key/value form
+    let xs = || var("xs");
+    let c1 = comp(&bin(Bop::Mul, x(), cint(2)), &Some(bin(Bop::Gt, x(), cint(1))));
+    let extra: Vec<(&str, Sx)> = vec![
+        ("[[x for x in xs], x]", arr(vec![(false, comp(&x(), &None)), (false, x())])),
+        ("[x, [x for x in xs], x]", arr(vec![(false, x()), (false, comp(&x(), &None)), (false, x())])),
+        ("[x for x in xs] | length", filt(comp(&x(), &None), "length")),
+        ("[x for x in xs if x > 1] | length", filt(c1.clone(), "length")),
+        ("[x for x in xs][0]", item(comp(&x(), &None), cint(0))),
+        ("[x for x in xs][-1]", item(comp(&x(), &None), un(Unop::Minus, cint(1)))),
+        ("[throw() for x in xs if false]", comp(&throw_call(), &Some(Sx::Const(Const::Bool(false))))),
+        ("[throw() for x in []]", Sx::Comp(bx(throw_call()), None, "x".into(), bx(arr(vec![])), None)),
+        ("[x for x in [] if throw()]", Sx::Comp(bx(x()), None, "x".into(), bx(arr(vec![])), Some(bx(throw_call())))),
+        ("[x for x in throw()]", Sx::Comp(bx(x()), None, "x".into(), bx(throw_call()), None)),
+        ("[x for x in [1, 2, y]]", Sx::Comp(bx(x()), None, "x".into(), bx(arr(vec![(false, cint(1)), (false, cint(2)), (false, var("y"))])), None)),
+        ("[x for x in [...xs, ...xs]]", Sx::Comp(bx(x()), None, "x".into(), bx(arr(vec![(true, xs()), (true, xs())])), None)),
+        ("[y for y in (xs if y else [])]", Sx::Comp(bx(var("y")), None, "y".into(), bx(tern(var("y"), xs(), arr(vec![]))), None)),
+        ("[[x * z for z in xs] for x in xs]", Sx::Comp(bx(Sx::Comp(bx(bin(Bop::Mul, x(), var("z"))), None, "z".into(), bx(xs()), None)), None, "x".into(), bx(xs()), None)),
+        ("[x for x in [z + 1 for z in xs] if x > 2]", Sx::Comp(bx(x()), None, "x".into(), bx(Sx::Comp(bx(bin(Bop::Plus, var("z"), cint(1))), None, "z".into(), bx(xs()), None)), Some(bx(bin(Bop::Gt, x(), cint(2)))))),
+        ("[x for x in xs if [z for z in xs if z > x]]", Sx::Comp(bx(x()), None, "x".into(), bx(xs()), Some(bx(Sx::Comp(bx(var("z")), None, "z".into(), bx(xs()), Some(bx(bin(Bop::Gt, var("z"), x())))))))),
+        ("[...[x for x in xs], 0, ...xs]", arr(vec![(true, comp(&x(), &None)), (false, cint(0)), (true, xs())])),
+        ("[...xs, ...[x + 1 for x in xs if x],]", Sx::Trail(bx(arr(vec![(true, xs()), (true, comp(&bin(Bop::Plus, x(), cint(1)), &Some(x())))])))),
+        ("{'k': [x for x in xs], ...{'n': xs | length}}", Sx::Map(vec![(Some(MKey::Str("k".into())), comp(&x(), &None)), (None, Sx::Map(vec![(Some(MKey::Str("n".into())), filt(xs(), "length"))]))])),
+        ("[...x] (outer x)", arr(vec![(true, x())])),
+        ("[v for k, v in xs]", Sx::Comp(bx(var("v")), Some("k".into()), "v".into(), bx(xs()), None)),
+        ("[k for k, v in xs if v]", Sx::Comp(bx(var("k")), Some("k".into()), "v".into(), bx(xs()), Some(bx(var("v"))))),
+        ("[x for x in xs] == xs", bin(Bop::Eq, comp(&x(), &None), xs())),
+        ("1 in [x for x in xs]", bin(Bop::In, cint(1), comp(&x(), &None))),
+        ("[x for x in xs] if xs else 'none'", tern(xs(), comp(&x(), &None), sstr("none"))),
+        ("[x for x in xs or [9]]", Sx::Comp(bx(x()), None, "x".into(), bx(bin(Bop::Or, xs(), arr(vec![(false, cint(9))]))), None)),
+        ("[x for x in xs if x or y]", comp(&x(), &Some(bin(Bop::Or, x(), var("y"))))),
+    ];
+    for (ti, (tn, t)) in targets.iter().enumerate() {
+        if !thorough && !matches!(ti, 0 | 2 | 7 | 8 | 13) {
+            continue;
+        }
+        let env = env_of(t);
+        for (fname, e) in &extra {
+            let tag = format!("C:{fname} @ {tn}");
+            emit_eval(sink, meta, tera, e, &env, false, &tag, rng);
+        }
+    }
+    sink.count - before
+}
+
 // ------------------------------------------------------------------ (J) and/or nested inside a non-logical wrapper
 
 /// Implementation-side oracle for the statement forms (their jump patching differs from `{{ }}`):
@@ -3331,6 +3460,9 @@ fn main() {
     // (K) maps / arrays subscripted and probed with computed keys
     let eval_key_cases = emit_key_cases(&mut eval, &mut meta, &tera, &mut rng, thorough);
     meta.extra.insert("eval_key_cases".into(), json!(eval_key_cases));
+    // (C) list comprehensions and spreads of their results
+    let eval_comp_cases = emit_comp_cases(&mut eval, &mut meta, &tera, &mut rng, thorough);
+    meta.extra.insert("eval_comp_cases".into(), json!(eval_comp_cases));
     // (J) same-operator and/or inside non-logical wrappers; (F) float x integer comparisons
     let eval_jump_cases = emit_jump_cases(&mut eval, &mut meta, &tera, &mut rng, thorough);
     meta.extra.insert("eval_jump_cases".into(), json!(eval_jump_cases));
